@@ -123,6 +123,12 @@ var freeOps = []op{
 		tx.Updates(map[string]interface{}{})
 		return tx.Session(&gorm.Session{})
 	}},
+	// clauses that change the executor branch (query-with-scan instead of exec) but are no condition
+	{Label: `Clauses(Returning{})`, Apply: func(db *gorm.DB, m int) *gorm.DB { return db.Clauses(clause.Returning{}) }},
+	{Label: `Clauses(Returning{name})`, Apply: func(db *gorm.DB, m int) *gorm.DB {
+		return db.Clauses(clause.Returning{Columns: []clause.Column{{Name: "name"}}})
+	}},
+	{Label: `Clauses(Locking)`, Apply: func(db *gorm.DB, m int) *gorm.DB { return db.Clauses(clause.Locking{Strength: "UPDATE"}) }},
 	{Label: `Session()`, Apply: func(db *gorm.DB, m int) *gorm.DB { return db.Session(&gorm.Session{}) }},
 	{Label: `WithContext()`, Apply: func(db *gorm.DB, m int) *gorm.DB { return db.WithContext(context.Background()) }},
 }
